@@ -149,6 +149,14 @@ pub fn gen_session(ch: &mut Chooser) -> SessionCase {
         known_values.push((forms.len(), "(2 3)".to_string()));
         forms.push(Form::Raw("(list (my-inc 1) (my-inc (my-inc 1)))".into()));
     }
+    // two procedures written alike in different submissions: what eqv? says about them does not depend on where the
+    // lines of their definitions were broken
+    if ch.chance(1, 2) {
+        let idl = || Expr::Lambda(Formals { fixed: vec!["x".into(), "y".into()], rest: None }, body1(app("list", vec![var("y"), var("x")])));
+        forms.push(Form::Define(Def { name: "same-a".into(), value: idl(), sugar: false }));
+        forms.push(Form::Define(Def { name: "same-b".into(), value: idl(), sugar: false }));
+        forms.push(Form::Expr(app("list", vec![app("eqv?", vec![var("same-a"), var("same-b")]), app("eqv?", vec![var("same-a"), var("same-a")]), app("same-b", vec![Expr::Int(1), Expr::Int(2)])])));
+    }
     // an import declaration that comes too late (after definitions) is an error wherever it is entered, and binds nothing:
     // the program's own caddr stays
     if ch.chance(1, 2) {
